@@ -1,5 +1,5 @@
 """Rule registry and property -> rules mapping (DESIGN.md sections 3 and 4)."""
-from . import bounds, formula, safety, arith, structure
+from . import bounds, formula, safety, arith, structure, repinv
 
 RULES = {}
 
@@ -87,6 +87,13 @@ rule("R-SIG", structure.r_sig, 35,
 rule("R-HANDLELIFE", structure.r_handlelife, 4,
      "no public operation returns an iterator whose destructor relocates slots while its items destroy their element in place through a stored slot address "
      "(an Iterator's items cannot borrow from the iterator, so such an item can outlive it)")
+rule("R-REPINV", repinv.r_repinv, 20,
+     "slot accounting over every loop-free path of every public operation of the vector types: the set of initialised slots (symbolic intervals, start [0,LEN)) "
+     "after each destroy / copy / write / clone / read and each length store never provably exposes an empty slot at user code or at the return, destroys or "
+     "moves an empty slot, overwrites a full one, or leaves a full slot outside the visible length at the return")
+rule("R-TRAITSET", structure.r_traitset, 0,
+     "no safe public function returns a vector / view / handle whose concrete constraint set has a marker (Send, Sync, Cloneable) that none of its vector "
+     "arguments' constraint sets has")
 rule("R-NOLEAK", structure.r_noleak, 2,
      "drop suppression (ManuallyDrop::new, mem::forget, MaybeUninit::new, ManuallyDrop/MaybeUninit fields) of a value that owns storage occurs only in the "
      "raw-parts decomposition, where the storage is handed to the caller")
@@ -128,21 +135,24 @@ RULES["R-FORGET"]["props_filter"] = _fn_filter([("owned-value-no-drop", ["C03", 
 # copies inside one storage: the drain/splice tail moves (move_elements_at, Drain/Splice drop) belong to C02 as well, everything to C01 and C05
 RULES["R-OVERLAP"]["props_filter"] = _fn_filter([("move_elements_at", ["C01", "C02", "C05"]), ("drain", ["C01", "C02", "C05"]), ("splice", ["C01", "C02", "C05"])], default=["C01", "C05"])
 # a cursor method outside the judged next/next_back/size_hint/len set can skip owning items (drained elements are then never destroyed): also C03
-RULES["R-ITER"]["props_filter"] = _fn_filter([("unclassified-cursor-method", ["C02", "C13", "C14", "C03"])], default=["C02", "C13", "C14"])
+# ... and so does a wrapper of an owning iterator that forwards a skipping method (nth / nth_back) instead of running next() for every skipped item
+RULES["R-ITER"]["props_filter"] = _fn_filter([("unclassified-cursor-method", ["C02", "C13", "C14", "C03"]), (":forward", ["C02", "C13", "C14", "C03"])], default=["C02", "C13", "C14"])
 RULES["R-STACKCAP"]["props_filter"] = _fn_filter([("zero-size-capacity", ["C11"])], default=["C11", "C05"])
 RULES["R-PROVENANCE"]["props_filter"] = _fn_filter([("unwind-destroys-in-flight", ["C06", "C03"]), ("reporter", ["C04", "C13"]), ("clone_type::clone_fn:destroys-on-unwind", ["C06", "C03", "C08"]), ("clone_type::clone_fn", ["C08", "C03", "C09", "C01"]), ("clone", ["C08", "C03"]), ("CLONE_FN", ["C08"]), ("destr", ["C03"])], default=["C04", "C08", "C03"])
 
+RULES["R-REPINV"]["props_filter"] = _fn_filter([("leak/", ["C03"]), ("double/", ["C03", "C01", "C06"]), ("overwrite/", ["C03", "C01"]), ("exposed/", ["C06", "C05", "C01", "C03"])])
+
 PROPERTIES = {
-    "C01": {"rules": ["R-BOUNDS", "R-FORMULA", "R-UNITS", "R-OVERLAP", "R-PROVENANCE", "R-FORGET"],
+    "C01": {"rules": ["R-BOUNDS", "R-FORMULA", "R-UNITS", "R-OVERLAP", "R-PROVENANCE", "R-FORGET", "R-REPINV"],
             "not_decided": "value-level equality of elements (the analysis tracks slots and byte ranges, not contents); user backends violating the Mem contract"},
     "C02": {"rules": ["R-BOUNDS", "R-LENLOWER", "R-ITER", "R-FORMULA", "R-NONINTERFERENCE", "R-UNITS", "R-ARITH", "R-BOUNDLOOP", "R-OVERLAP"],
             "not_decided": "equality of yielded values"},
-    "C03": {"rules": ["R-FORGET", "R-PROVENANCE", "R-ORDER", "R-NONINTERFERENCE", "R-FORMULA", "R-LENLOWER", "R-NOLEAK", "R-ITER", "R-HANDLELIFE"],
+    "C03": {"rules": ["R-FORGET", "R-PROVENANCE", "R-ORDER", "R-NONINTERFERENCE", "R-FORMULA", "R-LENLOWER", "R-NOLEAK", "R-ITER", "R-HANDLELIFE", "R-REPINV"],
             "not_decided": "a global count of live values over histories (ownership discipline is decided, not identity accounting)"},
     "C04": {"rules": ["R-TYPEGUARD", "R-PROVENANCE", "R-ORDER", "R-FORGET"], "not_decided": "which downcast succeeds at run time; decided: every unchecked reinterpretation sits behind the right equality test"},
-    "C05": {"rules": ["R-ORDER", "R-BOUNDS", "R-UNITS", "R-FORMULA", "R-BOUNDLOOP", "R-NONINTERFERENCE", "R-STACKCAP", "R-OVERLAP"],
+    "C05": {"rules": ["R-ORDER", "R-BOUNDS", "R-UNITS", "R-FORMULA", "R-BOUNDLOOP", "R-NONINTERFERENCE", "R-STACKCAP", "R-OVERLAP", "R-REPINV"],
             "not_decided": "'no byte is read before it was written' in general, guard zones / poison (run-time notions)"},
-    "C06": {"rules": ["R-ORDER", "R-BOUNDLOOP", "R-LENLOWER", "R-PROVENANCE", "R-FORMULA"], "not_decided": "that later operations stay fully usable beyond LEN<=CAP and visible-range integrity"},
+    "C06": {"rules": ["R-ORDER", "R-BOUNDLOOP", "R-LENLOWER", "R-PROVENANCE", "R-FORMULA", "R-REPINV"], "not_decided": "that later operations stay fully usable beyond LEN<=CAP and visible-range integrity"},
     "C07": {"rules": ["R-LENLOWER", "R-FORMULA"], "not_decided": ""},
     "C08": {"rules": ["R-FORMULA", "R-ORDER", "R-EXPANDGUARD", "R-PROVENANCE"],
             # `Clone` must exist for every Cloneable constraint set on EVERY backend (a bound such as `M::Mem: MemResizable` on the impl removes it from the
@@ -156,7 +166,7 @@ PROPERTIES = {
     "C12": {"rules": ["R-FORMULA", "R-UNITS", "R-ALIGN", "R-HEAP"], "not_decided": ""},
     "C13": {"rules": ["R-BOUNDS", "R-FORMULA", "R-TYPEGUARD", "R-PROVENANCE", "R-ITER"], "not_decided": "value equality after mutation"},
     "C14": {"rules": ["R-ITER", "R-FORMULA"], "not_decided": "typed iterators are core::slice iterators over the R-FORMULA slice (std adapters trusted)"},
-    "C15": {"rules": [], "probes": ["P15"], "exhaustive": True, "not_decided": ""},
+    "C15": {"rules": ["R-TRAITSET"], "probes": ["P15"], "exhaustive": True, "not_decided": ""},
     "C16": {"rules": ["R-SIG"], "probes": ["P16"], "exhaustive": True, "not_decided": ""},
     "C17": {"rules": ["R-FIELDMAP"], "not_decided": "'indistinguishable under all further operations' follows only as 'every field is restored'"},
     "C18": {"rules": ["R-HEAP", "R-ARITH", "R-ALLOCCONFINED", "R-UNITS", "R-NOLEAK"], "not_decided": "the allocator's own behaviour"},
